@@ -268,15 +268,36 @@ def check(ctx):
     # result of a later, well-formed stream depend on the history of earlier ones
     ctx.clause = "1c-decoder-stateless"
     n_dec = 0
+    # functions the confirmed tree does not have (helpers, context managers, generators added later) that a function of the decode
+    # path mentions - transitively - run on the decode path too
+    from ..normalize import load_inventory as _li
+    _inv_f = set(_li()["functions"])
+    _is_path = lambda fi: (fi.mod.name == "bromelia.base" and fi.cls is not None and fi.cls.name in ("DiameterAVP", "DiameterMessage", "DiameterHeader", "DiameterAvpLoader")
+                           and (fi.name in ("load", "get_avp_class", "_get_load_avps_dictionary", "has_updated") or fi.cls.name == "DiameterAvpLoader")) or \
+        (fi.mod.name == "bromelia.types" and fi.cls is not None and fi.name in ("__init__", "parser_data")) or \
+        (fi.mod.name.startswith("bromelia.avps.") and fi.cls is not None and fi.name == "__init__")
+    _newf = [fi for fi in repo.funcs.values() if fi.qual not in _inv_f and ".<nested>" not in fi.qual]
+    _new_on_path = set()
+    _front = [fi for fi in repo.funcs.values() if _is_path(fi)]
+    for _ in range(4):
+        _names = {n_.id for fi in _front for n_ in ast.walk(fi.node) if isinstance(n_, ast.Name)} | \
+            {n_.attr for fi in _front for n_ in ast.walk(fi.node) if isinstance(n_, ast.Attribute)}
+        _add = [fi for fi in _newf if fi.name in _names and fi.qual not in _new_on_path]
+        if not _add:
+            break
+        _new_on_path |= {fi.qual for fi in _add}
+        _front = _add
     for fi in repo.funcs.values():
         mn = fi.mod.name
         on_path = (mn == "bromelia.base" and fi.cls is not None and fi.cls.name in ("DiameterAVP", "DiameterMessage", "DiameterHeader", "DiameterAvpLoader")
                    and (fi.name in ("load", "get_avp_class", "_get_load_avps_dictionary", "has_updated") or fi.cls.name == "DiameterAvpLoader")) or \
             (mn == "bromelia.types" and fi.cls is not None and fi.name in ("__init__", "parser_data")) or \
             (mn.startswith("bromelia.avps.") and fi.cls is not None and fi.name == "__init__")
-        if not on_path:
+        if not on_path and fi.qual not in _new_on_path:
             continue
         n_dec += 1
+        _locals = {n_.id for n_ in ast.walk(fi.node) if isinstance(n_, ast.Name) and isinstance(n_.ctx, ast.Store)} | \
+            {a_.arg for a_ in fi.node.args.posonlyargs + fi.node.args.args + fi.node.args.kwonlyargs}
         for x in walk_no_nested(fi.node):
             tgt = None
             if isinstance(x, (ast.Assign, ast.AugAssign, ast.AnnAssign)):
@@ -285,8 +306,17 @@ def check(ctx):
                         r_ = repo.resolve(fi.mod, t.value.id)
                         if r_ is not None and r_.kind == "class":
                             tgt = t
+                        elif t.value.id not in _locals and t.value.id in fi.mod.assigns:
+                            tgt = t          # attribute of a module-level object (a registry, a threading.local(), a counter holder)
+                    elif isinstance(t, ast.Subscript) and isinstance(t.value, ast.Name) and t.value.id not in _locals \
+                            and t.value.id in fi.mod.assigns:
+                        tgt = t              # item of a module-level container
             elif isinstance(x, ast.Global):
                 tgt = x
+            elif isinstance(x, ast.Expr) and isinstance(x.value, ast.Call) and isinstance(x.value.func, ast.Name) and x.value.func.id == "setattr" \
+                    and x.value.args and isinstance(x.value.args[0], ast.Name) and x.value.args[0].id not in _locals \
+                    and x.value.args[0].id in fi.mod.assigns:
+                tgt = x.value.args[0]
             if tgt is not None:
                 ctx.violate("R-WHO/decoder-state", fi.qual, fi.where(x),
                             f"`{ast.unparse(x)[:70]}` writes process-wide state on the decoding path: what a byte stream decodes to "
